@@ -147,7 +147,7 @@ Lemma sstep_scoh s a o :
   SCoh s a -> op_ok o ->
   SCoh (fst (sstep s o)) (fst (astep true a o)) /\ snd (sstep s o) = snd (astep true a o).
 Proof.
-  intros HS Hok. destruct o as [kt v|k|k|kt|q]; simpl.
+  intros HS Hok. destruct o as [kt v|k|k|kt|q|v|]; simpl.
   - destruct (sd_setitem_scoh s a kt v HS Hok) as [s' [Hs' HS']]. rewrite Hs'. simpl.
     split; [exact HS'|reflexivity].
   - unfold aspec_del. destruct (aval a k) as [v|] eqn:Hk.
@@ -161,6 +161,18 @@ Proof.
     + rewrite (sd_delattr_none s a k HS Hk). simpl. split; [exact HS|reflexivity].
   - split; [apply (sd_try_del_all_scoh kt s a HS)|reflexivity].
   - split; [exact HS|apply qraises_coherent; apply (sc_d _ _ HS)].
+  - destruct HS as [HC Hnd Hattr Hdef]. split; [|reflexivity]. constructor; simpl.
+    + apply (Coherent_same _ a); [reflexivity|reflexivity|exact HC].
+    + exact Hnd.
+    + intro k. rewrite Hattr. reflexivity.
+    + reflexivity.
+  - destruct HS as [HC Hnd Hattr Hdef]. rewrite Hdef. destruct (adefault a) as [dv|] eqn:E; simpl.
+    + split; [|reflexivity]. constructor; simpl.
+      * apply (Coherent_same _ a); [reflexivity|reflexivity|exact HC].
+      * exact Hnd.
+      * intro k. rewrite Hattr. reflexivity.
+      * reflexivity.
+    + split; [|reflexivity]. constructor; try assumption. congruence.
 Qed.
 
 Lemma sview_ok ks vs s a e : SCoh s a -> view_ok (sview ks vs s e) (aview true ks vs a e).
